@@ -56,6 +56,22 @@ func (c *Context) Has(key string) bool {
 	return c.Value(key) != nil
 }
 
+// bound reports whether the key was set, to any value including nil, on
+// this context or on one of its outer contexts.
+func (c *Context) bound(key string) bool {
+	c.moot.Lock()
+	_, ok := c.data[key]
+	c.moot.Unlock()
+	if ok {
+		return true
+	}
+	if c.outer != nil {
+		return c.outer.bound(key)
+	}
+
+	return false
+}
+
 // Export all the known values in the context.
 // Note this can't reach up into other implemenations
 // of context.Context.
@@ -91,7 +107,8 @@ func NewContextWith(data map[string]interface{}) *Context {
 	}
 
 	for k, v := range Helpers.All() {
-		if !c.Has(k) {
+		// a name the user bound, even to nil, is not taken over by a helper
+		if !c.bound(k) {
 			c.Set(k, v)
 		}
 	}
@@ -111,7 +128,8 @@ func NewContextWithOuter(data map[string]interface{}, out *Context) *Context {
 	}
 
 	for k, v := range Helpers.All() {
-		if !c.Has(k) && !c.outer.Has(k) {
+		// a name the user bound, even to nil, is not taken over by a helper
+		if !c.bound(k) {
 			c.Set(k, v)
 		}
 	}
